@@ -161,11 +161,15 @@ def run(ctx):
                 for k_, it in (c[6] if len(c) > 6 else {}).items():
                     pass
                 # the comprehension variable: find the bound variable used for the amount
-                bvs = [t for t in tm.subterms(args[2]) if isinstance(t, T) and t.op == "bv"]
-                okidx = isinstance(args[1], T) and args[1].op == "bvi" and bool(bvs) and args[1].args[0] == bvs[0].args[0]
+                _lp, proj = _sel_proj(s, fi)
+                dpt = args[1].args[0] if isinstance(args[1], T) and args[1].op == "bvi" else None
+                it0 = (c[6] if len(c) > 6 else {}).get(dpt) if dpt is not None else None
+                amt_eff = _effective(args[2], it0, dpt, proj) if dpt is not None else args[2]
+                bvs = [t for t in tm.subterms(amt_eff) if isinstance(t, T) and t.op == "bv"]
+                okidx = isinstance(args[1], T) and args[1].op == "bvi" and bool(bvs) and (args[1].args[0] == bvs[0].args[0] or not tm.veq(amt_eff, args[2]))
                 R.check("C16.2", "PROV", fi, label + ": message index = position of the input in the transaction's input list", okidx,
                         "witness_message is called with index %s" % tm.show(args[1])[:120], example="a UTXO whose vout is not its position (e.g. vout 3 as first input)")
-                okamt = bool(bvs) and tm.veq(args[2], T("round", (tm.mul([1e8, T("field", (bvs[0], "amount"))]),), tm.INT))
+                okamt = bool(bvs) and tm.veq(amt_eff, T("round", (tm.mul([1e8, T("field", (bvs[0], "amount"))]),), tm.INT))
                 R.check("C16.2", "PROV", fi, label + ": message amount = that input's exact satoshi amount", okamt, "witness_message amount is %s" % tm.show(args[2])[:160],
                         example="an amount such as 0.29 BTC")
                 okins = isinstance(args[0], T) and args[0].op == "loopout" and args[0].args[0] == tv
@@ -178,7 +182,7 @@ def run(ctx):
                 # the messages range over the selected outputs
                 its = [l for l in s.loops] and None
                 it_ = (c[6] if len(c) > 6 else {}).get(args[1].args[0]) if isinstance(args[1], T) and args[1].op == "bvi" else None
-                sel_ok = bool(selu) and isinstance(it_, T) and it_.op == "enumerate" and tm.contains(it_, lambda t: isinstance(t, T) and t.op == "loopout" and t.args[0] in selu)
+                sel_ok = bool(proj) and isinstance(it_, T) and it_.op == "enumerate" and tm.contains(it_, lambda t: isinstance(t, T) and t.op == "loopout" and t.args[0] in proj)
                 R.check("C16.2", "PROV", fi, label + ": one message per SELECTED output, enumerated in input order", sel_ok,
                         "the signature messages do not range over enumerate(selected outputs)", example="a UTXO set larger than what is spent")
                 if kind in ("p2wsh", "p2sh-p2wsh"):
@@ -221,7 +225,8 @@ def run(ctx):
         final = txc[-1] if txc else None
         if final is not None:
             wit = final[2].get("script_witnesses")
-            carried = tm.contains(wit, lambda t: isinstance(t, T) and t.op in ("fold", "loopout") and t.args[0] not in (tv, tot_var) + tuple(selu)) if wit is not None else False
+            _lp2, proj2 = _sel_proj(s, fi)
+            carried = tm.contains(wit, lambda t: isinstance(t, T) and t.op in ("fold", "loopout") and t.args[0] not in (tv, tot_var) + tuple(selu) + tuple(proj2)) if wit is not None else False
             R.check("C16.8", "PROV", fi, label + ": each input's witness depends only on loop-invariant values and its own signatures", not carried,
                     "the witness stacks are built with a loop-carried accumulator (input k's stack contains data of inputs before it)",
                     example="a p2wsh sender with two or more selected UTXOs")
@@ -235,6 +240,33 @@ def run(ctx):
     c11.check_rows(ctx, "C16.9")
     c01.check_der(ctx, "C16.9")
     c05.check_writer(ctx, "C16.9")
+
+
+def _sel_proj(s, fi):
+    """The UTXO selection loop and every list it builds by appending one value g(u) per selected output u: {var: g}."""
+    sel = [lp for lp in s.loops if lp.func == fi.qualname and lp.kind == "for" and isinstance(lp.iter, T) and lp.iter.op == "idx" and lp.iter.args[1] == "unspents"]
+    if len(sel) != 1:
+        return None, {}
+    lp = sel[0]
+    out = {}
+    for v, val in lp.body.items():
+        if isinstance(val, T) and val.op == "lcat" and len(val.args) == 2 and tm.veq(val.args[0], T("acc", (v, lp.depth), tm.LIST)):
+            app = rules.unfz(val.args[1])
+            if isinstance(app, (list, tuple)) and len(app) == 1:
+                out[v] = app[0]
+    return lp, out
+
+
+def _effective(arg, it_, depth, proj):
+    """`arg` as a function of the selected output: a comprehension over enumerate(list built as [g(u) ...]) sees g(u)."""
+    if not (isinstance(it_, T) and it_.op == "enumerate"):
+        return arg
+    lists = [t for t in tm.subterms(it_) if isinstance(t, T) and t.op == "loopout" and t.args[0] in proj]
+    if not lists:
+        return arg
+    g = proj[lists[0].args[0]]
+    elem = tm.bv(depth)
+    return tm.subst(arg, lambda t: g if isinstance(t, T) and t.op == "bv" and t.args[0] == depth else None)
 
 
 def _comp_iter_of(summary, call):
@@ -288,13 +320,17 @@ def check_message_call(ctx, oid="C16.2", kinds=("p2wpkh", "p2wsh")):
         if len(wm) != 1:
             continue
         args, kw = wm[0][1], wm[0][2]
-        bvs = [t for t in tm.subterms(args[2]) if isinstance(t, T) and t.op == "bv"]
+        _lp, proj = _sel_proj(s, fi)
+        dpt = args[1].args[0] if isinstance(args[1], T) and args[1].op == "bvi" else None
+        it0 = (wm[0][6] if len(wm[0]) > 6 else {}).get(dpt) if dpt is not None else None
+        amt_eff = _effective(args[2], it0, dpt, proj) if dpt is not None else args[2]
+        bvs = [t for t in tm.subterms(amt_eff) if isinstance(t, T) and t.op == "bv"]
         R.check(oid, "PROV", fi, "%s: signed input index = position in the input list" % kind,
-                isinstance(args[1], T) and args[1].op == "bvi" and bool(bvs) and args[1].args[0] == bvs[0].args[0],
+                isinstance(args[1], T) and args[1].op == "bvi" and bool(bvs) and (args[1].args[0] == bvs[0].args[0] or not tm.veq(amt_eff, args[2])),
                 "witness_message index argument is %s" % tm.show(args[1])[:100], example="a UTXO at vout 3 spent as the first input")
         R.check(oid, "TYPE", fi, "%s: signed amount = the input's exact satoshi value" % kind,
-                bool(bvs) and tm.veq(args[2], T("round", (tm.mul([1e8, T("field", (bvs[0], "amount"))]),), tm.INT)),
-                "the signed amount is %s" % tm.show(args[2])[:160], example="an amount such as 0.29 BTC (float product truncates to 28999999)")
+                bool(bvs) and tm.veq(amt_eff, T("round", (tm.mul([1e8, T("field", (bvs[0], "amount"))]),), tm.INT)),
+                "the signed amount is %s" % tm.show(amt_eff)[:160], example="an amount such as 0.29 BTC (float product truncates to 28999999)")
         # the inputs that are signed and the inputs of the returned transaction are built with the same nSequence
         seqs = []
         for c in s.calls:
